@@ -3,6 +3,7 @@
 
 import datetime
 import fractions
+import unittest.mock
 
 import numpy as np
 import dataiter as di
@@ -34,7 +35,8 @@ VALUES = {
     "dtime": ["2020-01-01T01:02:03.000004", "1969-12-31T23:59:59", "0001-01-01T00:00:00"],
     "tdelta": [0, 1, -5, 86400],
     "bytes": ["a", "", "bc"],
-    "obj": [[1, 2], [3, 4], [-1, 3]],      # fractions.Fraction(num, den): hashable, no NumPy shape inference
+    "obj": [[1, 2], [3, 4], [-1, 3], ["ANY"]],      # fractions.Fraction(num, den): hashable, no NumPy shape inference;
+                                                      # ["ANY"]: unittest.mock.ANY, an object that compares equal to everything (also to None)
 }
 NP_TAGS = {
     "int": ["np_i64", "np_i32"], "float": ["np_f64", "np_f32"], "bool": ["np_b"], "str": ["np_s"],
@@ -59,7 +61,7 @@ def mk(kind, tag, v):
     elif kind == "bytes":
         py = v.encode("ascii")
     elif kind == "obj":
-        py = fractions.Fraction(v[0], v[1])
+        py = unittest.mock.ANY if v == ["ANY"] else fractions.Fraction(v[0], v[1])
     else:
         py = v
     if tag == "py":
